@@ -79,6 +79,7 @@ type End struct {
 	// OnClosing, if set, is called inside Close after the pending I/O has been failed and before Close returns.
 	OnClosing func()
 	closed    int // Close calls that have returned
+	writeErr  error
 }
 
 // Pipe returns two connected ends sharing a logical clock.
@@ -131,7 +132,22 @@ func (e *End) ioStart(isWrite bool) *Fault {
 	return f
 }
 
+// FailWrites makes every further Write of this end fail with err while its reads stay as they are (a transport
+// whose send direction is gone: a write deadline, a peer that shut down its receive half).
+func (e *End) FailWrites(err error) {
+	e.mu.Lock()
+	e.writeErr = err
+	e.mu.Unlock()
+}
+
 func (e *End) Write(p []byte) (int, error) {
+	e.mu.Lock()
+	werr := e.writeErr
+	e.mu.Unlock()
+	if werr != nil {
+		e.ioStart(true)
+		return 0, werr
+	}
 	f := e.ioStart(true)
 	if f != nil {
 		switch f.Kind {
